@@ -32,7 +32,7 @@ ASSUMPTIONS = ["per-target expectation = the library's own root merge of indepen
 REACH = [("yamlpath/merger/merger.py", "_insert_dict,_insert_list,_insert_set,_insert_scalar,_get_merge_target_nodes,merge_with,_replace_merge_target", "Merger._insert_* / _get_merge_target_nodes / merge_with"),
          ("yamlpath/merger/mergerconfig.py", "get_insertion_point", "MergerConfig.get_insertion_point")]
 SIZES = {"quick": 30000, "thorough": 800000}
-REQUIRED_COUNTERS = ["target_sharing_checked", "merge_key_target_cases", "retyped_equal_rhs_cases", "cli_uncreatable_cases", "traversal_mergeat_cases", "existing_single", "existing_multiple", "created", "uncreatable"]
+REQUIRED_COUNTERS = ["rule_at_merge_point_cases", "target_sharing_checked", "merge_key_target_cases", "retyped_equal_rhs_cases", "cli_uncreatable_cases", "traversal_mergeat_cases", "existing_single", "existing_multiple", "created", "uncreatable"]
 SAMPLE = [("deep", "all", "all", "unique"), ("deep", "unique", "deep", "unique"), ("right", "right", "right", "right"),
           ("left", "left", "left", "left"), ("deep", "right", "unique", "left"), ("right", "all", "deep", "unique")]
 
@@ -285,6 +285,44 @@ def merge_key_target_case(ctx, rng):
             return
 
 
+def rule_at_merge_point_case(ctx, rng):
+    """A per-path rule (rules=) that names the merge point itself: the matched node must be the merge of its old content
+    with the right-hand document under THAT rule - i.e. what the same merge gives when the rule's mode is the default
+    for that node type (flat containers, so the mode matters at the merge point only)."""
+    sc = lambda: rng.choice(["auth", "cache", "metrics", "1", "2", "x"])
+    lst = lambda: "[%s]" % ", ".join(sc() for _ in range(rng.randrange(1, 4)))
+    mp = lambda: "{%s}" % ", ".join("%s: %s" % (k, sc()) for k in rng.sample(["a", "b", "c", "d"], rng.randrange(1, 4)))
+    ltext = "{settings: {plugins: %s, opts: %s, plugins2: %s}, other: %s}" % (lst(), mp(), lst(), lst())
+    leaf = rng.choice(["plugins", "opts"])
+    rtext, modes, slot = (lst(), ["all", "left", "right", "unique"], 1) if leaf == "plugins" else (mp(), ["left", "right", "deep"], 0)
+    mode = rng.choice(modes)
+    combo = list(rng.choice(SAMPLE))
+    if combo[slot] == mode:
+        combo[slot] = next(m for m in modes if m != mode)
+    mergeat = rng.choice(["/settings/%s", "settings.%s"]) % leaf
+    rule = rng.choice(["/settings/%s", "settings.%s"]) % leaf
+    as_default = list(combo)
+    as_default[slot] = mode
+    case = {"lhs": ltext, "rhs": rtext, "mergeat": mergeat, "policies": combo, "rules": {rule: mode}, "kind": "rule-at-merge-point"}
+    ctx.evaluations += 1
+    ctx.counters["rule_at_merge_point_cases"] = ctx.counters.get("rule_at_merge_point_cases", 0) + 1
+    ctx.mark_nontrivial([ltext, rtext, mergeat, rule, mode, combo])
+    res = []
+    for cmb, kw in ((combo, {"rules": {rule: mode}}), (as_default, {})):
+        m = Merger(LOG, yp.load(ltext), MergerConfig(LOG, ns(cmb, mergeat), **kw))
+        try:
+            m.merge_with(yp.load(rtext))
+            res.append(("OK", E.strip_anchors(E.image(m.data)), yp.dump(m.data)[:200]))
+        except (MergeException, YAMLPathException) as e:
+            res.append(("ERR", None, str(e)[:100]))
+        except Exception as e:
+            ctx.violation("crash/%s@%s/rule-at-merge-point" % (type(e).__name__, C05.where(e)), {"case": case, "summary": repr(e)[:150]})
+            return
+    if res[0][:2] != res[1][:2]:
+        ctx.violation("differs/rule-at-merge-point/%s" % mode, {"case": case, "summary": "with the rule %r ; with %s as the default %r" % (
+            res[0][2], mode, res[1][2])})
+
+
 def cli_uncreatable_case(ctx, rng, workdir):
     """yaml-merge --mergeat on a path that one left-hand document can neither match nor create: the run must fail and
     must not write anything out - also when OTHER left-hand documents of a multi-document file would have merged."""
@@ -333,6 +371,7 @@ def run_shard(ctx):
     while ctx.evaluations < want:
         if rng.random() < 0.04:
             merge_key_target_case(ctx, rng)
+            rule_at_merge_point_case(ctx, rng)
             continue
         lt = C05.gen_tree(rng, 0, "map")
         if len(lt[1]) < 2:
